@@ -191,6 +191,23 @@ class Prop(PropBase):
             out["array_multi"] = all(bool(arr_ph[i] == p(tm + 1.5 * u.s)) for i, tm in enumerate(p["tmid"]))
             f_arr = p.f0(p["tmid"] + 1.5 * u.s, 1)
             out["array_f0"] = bool(np.all(f_arr == u.Quantity([p.f0(tm + 1.5 * u.s, 1) for tm in p["tmid"]])))
+            # arrays in arbitrary order: first and last element from one entry, other entries in between, descending runs,
+            # repeated entries, and a 2-D shape
+            k = len(p)
+            rows = [0] + list(range(k - 1, -1, -1)) + [0, k // 2, 0]
+            offs = [(-1) ** j * (0.5 + j) for j in range(len(rows))]
+            ts = [p["tmid"][r] + o * u.s for r, o in zip(rows, offs)]
+            tarr = Time(ts)
+            ph_a = p(tarr)
+            out["array_multi"] = out["array_multi"] and all(bool(ph_a[i] == p(t)) for i, t in enumerate(ts))
+            for nn in (0, 1):
+                fa = p.f0(tarr, nn)
+                out["array_f0"] = out["array_f0"] and bool(np.all(fa == u.Quantity([p.f0(t, nn) for t in ts])))
+            if len(ts) % 2 == 0:
+                t2 = tarr.reshape(2, -1)
+                ph2 = p(t2)
+                out["array_multi"] = out["array_multi"] and ph2.shape == t2.shape and \
+                    all(bool(ph2.ravel()[i] == p(t)) for i, t in enumerate(ts))
         except Exception as e:
             out["array_multi"] = err_name(e)
         if case.get("coherent"):
